@@ -82,7 +82,16 @@ def run(pid, tier, seed):
     gen, ngen = tlc_sentences(verdict)
     if tier == "quick":
         gen = [x for i, x in enumerate(gen) if i % 4 == seed % 4]
-    ss = list(dict.fromkeys(ss + gen))
+    # valid sentences of exact lengths: with the two newlines around it the footer then ends exactly at (or one byte off) a
+    # block size an I/O layer may read in - 2^k for k = 6..14 - written with zero-padded numbers
+    longs = []
+    for k in range(6, 15):
+        for d in (-1, 0, 1):
+            n = 2 ** k - 2 + d
+            head, tail = b"EST5EDT,M3.2.0,M11.1.0/", b"2"
+            longs.append(head + b"0" * (n - len(head) - len(tail)) + tail)
+    longs.append(b"EST" + b"0" * (16382 - 27) + b"5EDT,M3.2.0/0002,M11.1.0")
+    ss = list(dict.fromkeys(ss + gen + longs))
     with open(os.path.join(work, "in.txt"), "w") as f:
         f.write("".join(s.hex() + "\n" for s in ss))
     states = trans = 0
@@ -120,6 +129,7 @@ def run(pid, tier, seed):
         # ---- end to end: sentences as TZif footers
         r = __import__("random").Random(seed)
         pick = r.sample(ss, min(len(ss), 400 if tier == "quick" else 3000))
+        pick += [x for x in longs if x not in pick]
         zl = os.path.join(work, "zones.txt")
         nvariant = 0
         os.makedirs(os.path.join(work, "z"), exist_ok=True)
